@@ -1169,3 +1169,233 @@ pub fn run_c17_wire(ctx: &Ctx) {
         run_wire(ctx, &prop, ra_case_strategy(), 60, 1);
     }
 }
+
+// ---------------------------------------------------------------------------------------------
+// C01 wire: clients racing for the addresses of a small pool against the real erbium-dhcp
+
+#[derive(Clone, Debug, Serialize, Deserialize)]
+pub struct RaceClient {
+    /// index into the MAC table
+    pub mac: u8,
+    /// Some(k): client-identifier option k (two MACs may share one: the same client; one MAC may
+    /// use two: different clients)
+    pub client_id: Option<u8>,
+    /// 0: DISCOVER, then REQUEST what was offered; 1: DISCOVER naming pool address `want`;
+    /// 2: REQUEST pool address `want` out of the blue (INIT-REBOOT style); 3: REQUEST what was
+    /// offered *to the previous client of the list*
+    pub style: u8,
+    pub want: u8,
+}
+
+#[derive(Clone, Debug, Serialize, Deserialize)]
+pub struct RaceCase {
+    /// number of addresses in the pool (10.55.0.50 ..)
+    pub pool: u8,
+    pub clients: Vec<RaceClient>,
+    pub rounds: u8,
+}
+
+pub fn race_case_strategy() -> impl Strategy<Value = RaceCase> {
+    let client = (
+        0u8..24,
+        proptest::option::weighted(0.3, 0u8..6),
+        prop_oneof![5 => Just(0u8), 2 => Just(1u8), 2 => Just(2u8), 2 => Just(3u8)],
+        0u8..8,
+    )
+        .prop_map(|(mac, client_id, style, want)| RaceClient { mac, client_id, style, want });
+    (1u8..=6, proptest::collection::vec(client, 2..=32), 1u8..=3).prop_map(|(pool, clients, rounds)| RaceCase { pool, clients, rounds })
+}
+
+pub struct C01Race {
+    pub raw: RawIf,
+}
+
+fn race_identity(c: &RaceClient) -> Vec<u8> {
+    match c.client_id {
+        Some(k) => vec![0xff, b'i', b'd', k],
+        None => mac_of(7000 + c.mac as usize).to_vec(),
+    }
+}
+
+impl C01Race {
+    fn build(&self, c: &RaceClient, xid: u32, msgtype: u8, requested: Option<Ipv4Addr>, server_id: bool) -> wire::Msg {
+        let mut m = wire::Msg {
+            xid,
+            flags: 0x8000,
+            ..Default::default()
+        };
+        m.set_hw(&mac_of(7000 + c.mac as usize));
+        m.options.push((wire::OPT_MSG_TYPE, vec![msgtype]));
+        if let Some(k) = c.client_id {
+            m.options.push((wire::OPT_CLIENT_ID, vec![0xff, b'i', b'd', k]));
+        }
+        if let Some(r) = requested {
+            m.options.push((wire::OPT_REQUESTED_IP, r.octets().to_vec()));
+        }
+        if server_id {
+            m.options.push((wire::OPT_SERVER_ID, SRV4.octets().to_vec()));
+        }
+        m
+    }
+
+    fn run_case(&self, c: &RaceCase) -> Outcome {
+        let mut out = Outcome::default();
+        wipe_db();
+        let first = 50u8;
+        let last = first + c.pool.max(1) - 1;
+        let extra = format!(
+            "dhcp-policies:\n  - match-subnet: 10.55.0.0/24\n    apply-range: {{start: 10.55.0.{}, end: 10.55.0.{}}}\n",
+            first, last
+        );
+        let mut srv = match NetServer::start("erbium-dhcp", &base_conf(&extra), "warn") {
+            Ok(s) => s,
+            Err(e) => {
+                out.fail("rig-error", e);
+                return out;
+            }
+        };
+        if let Err(e) = srv.wait_dhcp_ready(&self.raw) {
+            out.fail("rig-error", e);
+            return out;
+        }
+        self.raw.drain();
+        // address -> identity, from every reply seen (the readiness probe's rows count too)
+        let mut holder: std::collections::HashMap<Ipv4Addr, Vec<u8>> = Default::default();
+        if let Ok(rows) = db_rows() {
+            for r in rows {
+                holder.insert(r.ip, r.client);
+            }
+        }
+        let pool_addr = |k: u8| Ipv4Addr::new(10, 55, 0, first + k % c.pool.max(1));
+        let mut offered: Vec<Option<Ipv4Addr>> = vec![None; c.clients.len()];
+        let mut replies = 0usize;
+        let mut contended = false;
+        for round in 0..c.rounds.max(1) {
+            // one burst: every client's frame back to back, replies collected afterwards
+            let mut xids: std::collections::HashMap<u32, usize> = Default::default();
+            let mut frames = vec![];
+            for (i, cl) in c.clients.iter().enumerate() {
+                let xid = 0x6100_0000 + ((round as u32) << 16) + i as u32;
+                let m = match (cl.style, offered[i]) {
+                    (0, Some(a)) => self.build(cl, xid, wire::REQUEST, Some(a), true),
+                    (0, None) => self.build(cl, xid, wire::DISCOVER, None, false),
+                    (1, _) => self.build(cl, xid, wire::DISCOVER, Some(pool_addr(cl.want)), false),
+                    (2, _) => self.build(cl, xid, wire::REQUEST, Some(pool_addr(cl.want)), false),
+                    (_, _) => {
+                        let prev = if i == 0 { c.clients.len() - 1 } else { i - 1 };
+                        match offered[prev] {
+                            Some(a) => self.build(cl, xid, wire::REQUEST, Some(a), true),
+                            None => self.build(cl, xid, wire::DISCOVER, None, false),
+                        }
+                    }
+                };
+                xids.insert(xid, i);
+                frames.push(dhcp_frame(&m));
+            }
+            for f in &frames {
+                let _ = self.raw.send(f);
+            }
+            let deadline = Instant::now() + Duration::from_millis(700);
+            let mut quiet = Instant::now();
+            while Instant::now() < deadline && quiet.elapsed() < Duration::from_millis(250) {
+                let Some(f) = self.raw.recv(Duration::from_millis(50)) else { continue };
+                let Ok(fr) = crate::ethip::decode_udp4(&f) else { continue };
+                if fr.sport != 67 || fr.dport != 68 {
+                    continue;
+                }
+                let Ok(m) = wire::Msg::decode(&fr.payload) else { continue };
+                let Some(&i) = xids.get(&m.xid) else { continue };
+                quiet = Instant::now();
+                let mt = m.option_map().get(&wire::OPT_MSG_TYPE).and_then(|v| v.first().copied()).unwrap_or(0);
+                if mt != wire::OFFER && mt != wire::ACK {
+                    continue;
+                }
+                replies += 1;
+                let id = race_identity(&c.clients[i]);
+                let x = m.yiaddr;
+                if mt == wire::OFFER {
+                    offered[i] = Some(x);
+                }
+                match holder.get(&x) {
+                    Some(h) if *h != id => {
+                        // every lease of this case runs for at least 300 s; the case lasts seconds
+                        out.nontrivial = true;
+                        out.fail(
+                            "C01:double-grant-on-the-wire",
+                            format!(
+                                "{} was {} to client {:02x?} (round {}) while client {:02x?} holds it; pool of {} addresses, {} clients",
+                                x,
+                                if mt == wire::OFFER { "offered" } else { "acknowledged" },
+                                id,
+                                round,
+                                h,
+                                c.pool,
+                                c.clients.len()
+                            ),
+                        );
+                        return out;
+                    }
+                    Some(_) => {}
+                    None => {
+                        holder.insert(x, id);
+                    }
+                }
+            }
+        }
+        let ids: std::collections::HashSet<Vec<u8>> = c.clients.iter().map(race_identity).collect();
+        if ids.len() > c.pool as usize {
+            contended = true;
+            out.class("more-clients-than-addresses");
+        }
+        if c.clients.iter().any(|x| x.client_id.is_some()) {
+            out.class("client-identifier-in-use");
+        }
+        out.nontrivial = contended && replies >= 2;
+        // the store agrees with what was put on the wire
+        match db_rows() {
+            Ok(rows) => {
+                for (x, id) in &holder {
+                    if let Some(r) = rows.iter().find(|r| r.ip == *x) {
+                        if r.client != *id {
+                            out.fail(
+                                "C01:store-disagrees-with-wire",
+                                format!("{} was granted to {:02x?} on the wire, the store records {:02x?}", x, id, r.client),
+                            );
+                            return out;
+                        }
+                    }
+                }
+            }
+            Err(e) => {
+                out.fail("rig-error", format!("lease database unreadable: {}", e));
+                return out;
+            }
+        }
+        if let Some((p, m)) = srv.panics().first() {
+            out.fail(panic_sig(m, p), format!("server task panicked: {} {}", p, m));
+        }
+        out
+    }
+}
+
+impl WireProp for C01Race {
+    type Case = RaceCase;
+    fn sub(&self) -> &'static str {
+        "wire-race"
+    }
+    fn exec_batch(&self, cases: &[RaceCase]) -> Vec<Outcome> {
+        cases.iter().map(|c| self.run_case(c)).collect()
+    }
+}
+
+pub fn run_c01_wire(ctx: &Ctx) {
+    let raw = match RawIf::open("cli0") {
+        Ok(r) => r,
+        Err(e) => {
+            ctx.assume(format!("wire tier unavailable: {}", e));
+            return;
+        }
+    };
+    let prop = C01Race { raw };
+    run_wire(ctx, &prop, race_case_strategy(), ctx.tier.pick(40, 1500), 1);
+}
